@@ -15,7 +15,7 @@ undirected, the root is a node, every entry of the edge table joins two existing
   below |V|, and sending an entry to its son end is a bijection onto the non-root nodes
   (`Lemmas/TreeRefU.lean`).
 * `isTree_eq_ref_unrooted`, `isTree_eq_ref` — whenever the root is a node, the traversal `isTree`
-  (GlobalGraph.cpp:653) answers what the reference decision `isTreeRef` answers, directed or not.
+  (GlobalGraph.cpp:668) answers what the reference decision `isTreeRef` answers, directed or not.
 * `isValid_eq_ref` — so does the cached `isValid()` after any history.
 -/
 namespace Bpp.C15
